@@ -61,7 +61,7 @@ P = {
             "drains the full batch once and resets the size; stored/announced key = hash of the exact bytes stored; own and peer paths forward "
             "the serialized bytes unchanged; no input-dependent panic in the batching path (both configs). Not seal timing.",
             TRUST + "bincode byte fidelity.", "DESIGN.md §3 C11"),
-    "C12": (False, "other", "path-condition implication + pairing provenance (unzip/zip) + wiring graph single-sender rule",
+    "C12": (True, "other", "path-condition implication + pairing provenance (unzip/zip) + wiring graph single-sender rule",
             "Decides: tx_batch.send only under total_stake >= quorum_threshold; total_stake starts at own stake and grows only by the stake of the "
             "peer whose ACK handle completed; names/handles pairing preserved; the QuorumWaiter is the only sender into the own-batch Processor.",
             TRUST + "oneshot/FuturesUnordered semantics.", "DESIGN.md §3 C12"),
@@ -69,12 +69,12 @@ P = {
             "Decides only the second sentence as a path in the wiring graph: every hop of digest flow and of "
             "missing-batch fetch/resume exists with matching variant, address class and key class; retry exists; one shared Store. Eventual commit is NOT decided.",
             TRUST, "DESIGN.md §3 C13"),
-    "C14": (False, "other", "deque gap typing + linear-resource analysis of (data, handler) pairs in reliable_sender::Connection",
+    "C14": (True, "other", "deque gap typing + linear-resource analysis of (data, handler) pairs in reliable_sender::Connection",
             "Decides the queue discipline: every move between pending_replies and buffer preserves the logical order; nothing popped is lost; "
             "discards only under handler.is_closed(); ACK resolves the front of pending_replies; reconnect loop has no exit; handle plumbing per address. "
             "Delivery under eventual connectivity is NOT decided.",
             TRUST + "TCP/tokio-util framing.", "DESIGN.md §3 C14"),
-    "C15": (False, "other", "exhaustive panic-site enumeration on pre-borrowck MIR (both feature configs) with machine-checked discharge rules; actor-immortality greatest fixpoint over the wiring graph",
+    "C15": (True, "other", "exhaustive panic-site enumeration on pre-borrowck MIR (both feature configs) with machine-checked discharge rules; actor-immortality greatest fixpoint over the wiring graph",
             "Decides: every panic-capable MIR terminator reachable from Node::new, the dispatch impls and the wire decoders is discharged "
             "(CONST/GUARD/SER/EXH/PEER/SELECT/AUTH/ENV); decode errors are values; dispatch errors are local to a connection; services are immortal.",
             TRUST + "panics inside third-party crates and allocation failure are out of scope.", "DESIGN.md §3 C15"),
